@@ -40,6 +40,28 @@ def build(pc, E, canary=None):
     pc.add_item(it)
     if canary is not None:
         return
+    # bounded stand-in (labelled bounded): binding is non-destructive on real applications
+    import json, os
+    from pyvc.run import native, HERE
+    try:
+        out = native('c11_add.py', {'scenario': 'rebind_isolation'}, repo_root=E.repo.root)
+    except Exception as e:
+        out = {'harness_error': repr(e)}
+    if out.get('harness_error'):
+        pc.errors.append('bounded stand-in c11_add: %s' % out['harness_error'][-300:])
+    else:
+        pc.bounded.append({'what': 'one application embedded in three others (with and without render factories); a route with its own '
+                                   'middleware and resources bound successfully and unsuccessfully: routes, bound_apps, middleware and '
+                                   'resource lists of every application involved stay as they were', 'bound': 'fixed scenario',
+                           'cases': 1, 'failures': 1 if out.get('fails') else 0, 'label': 'bounded'})
+        if out.get('fails'):
+            fn = 'replays/C11-bounded-rebind-isolation.json'
+            os.makedirs(os.path.join(HERE, 'replays'), exist_ok=True)
+            with open(os.path.join(HERE, fn), 'w') as f:
+                json.dump({'property': 'C11', 'obligation': 'C11.B/rebind-isolation (bounded stand-in)',
+                           'concretised_input': {'script': 'c11_add.py', 'case': {'scenario': 'rebind_isolation'}},
+                           'native_observation': out}, f, indent=1)
+            pc.violations.append(('C11.B/rebind-isolation', fn, True))
     pc.assumptions += ['sha1 collision-freedom for generated-code file names (compile_code)']
 
 
